@@ -74,6 +74,8 @@ int run_rd(int argc, char** argv);
 int run_tbl(int argc, char** argv);
 int run_os(int argc, char** argv);
 int run_wr(int argc, char** argv);
+int run_thr(int argc, char** argv);
+int run_fz(int argc, char** argv);
 std::string exp_session(const std::string& line, int line_no, const std::string& fixed_dir, bool keep_files);
 
 }  // namespace vh
